@@ -508,6 +508,12 @@ def compare_with_model(ctx, C, impl, got, mres, what, replay, rerun=None):
 
 # ----------------------------------------------------------------------------- the check
 
+def confirm_budget(ctx):
+    """the expensive "is it only the stopping sweep?" re-runs protect against false alarms; once
+    several unexplained violations are on record they are pointless and only cost time"""
+    return sum(1 for v in ctx.violations if v.get('key') is None) < 8
+
+
 def case_dict(C, kind):
     return {'kind': kind, 'n': len(C), 'C': mat_bits(C)}
 
@@ -579,7 +585,9 @@ def check_matrix(ctx, C, kind, m_py, m_c, sparse_fmt=None, int_dtype=False):
             continue
         # Prinz self-consistency
         res = prinz_residual(C, T, pi)
-        if res > TOL_RESID.get(kind, TOL_RESID_DEFAULT):
+        if res > TOL_RESID.get(kind, TOL_RESID_DEFAULT) and not confirm_budget(ctx):
+            ctx.violation('%s estimator: Prinz self-consistency residual %.3g' % (impl, res), r)
+        elif res > TOL_RESID.get(kind, TOL_RESID_DEFAULT):
             tight = call_impl(builders._prinz_mle, np.array(C, dtype=float), tol=1e-13, max_iter=10 ** 6)
             if 'ok' in tight and 'ConvergenceWarning' not in tight['warned'] and \
                     prinz_residual(C, *tight['ok']) <= TOL_RESID_DEFAULT and \
@@ -620,7 +628,9 @@ def check_matrix(ctx, C, kind, m_py, m_c, sparse_fmt=None, int_dtype=False):
     if 'py' in results and 'ok' in results['py'] and 'ok' in got_c and not capped:
         d = maxdiff(results['py']['ok'], got_c['ok'])
         ctx.tag('cross-impl')
-        if d > TOL_CROSS.get(kind, TOL_CROSS_DEFAULT):
+        if d > TOL_CROSS.get(kind, TOL_CROSS_DEFAULT) and not confirm_budget(ctx):
+            ctx.violation('compiled and pure-Python estimators disagree by %.3g' % d, dict(rep, via='cross'))
+        elif d > TOL_CROSS.get(kind, TOL_CROSS_DEFAULT):
             # they stop at different sweeps (log vs log10 in the convergence test): tighten both
             tp = call_impl(builders._prinz_mle_py, C, tol=1e-12, max_iter=3000)
             tc = call_impl(builders._prinz_mle, np.array(C, dtype=float), tol=1e-12 / np.log(10), max_iter=3000)
@@ -737,17 +747,6 @@ def closed_pair_correspondence(ctx):
 def plan(ctx):
     """list of (C, kind, sparse_fmt, int_dtype)"""
     out = []
-    reps = ctx.n(30, 600)
-    k = 0
-    for kind in KINDS:
-        for r in range(reps):
-            n = 2 + (k % 7)
-            k += 1
-            if r == 0:
-                n = 2
-            C = gen_matrix(ctx.rng, n, kind)
-            fmt = None if r % 3 == 0 else SPARSE_FORMATS[(k // 3) % 7]
-            out.append((C, kind, fmt, r % 2 == 0))
     # structured family: >= 2 pendant states (c == 0 exactly for their pair), states with only self
     # counts plus one partner, nearly closed pairs (tiny a); hub / chain / core-plus-rare shapes
     sreps = ctx.n(8, 120)
@@ -770,6 +769,17 @@ def plan(ctx):
     out.append((np.array([[1., 1.], [1., 0.]]), 'int-sparse', 'coo', True))
     out.append((np.array([[5., 1., 0.], [0., 5., 1.], [1., 0., 5.]]), 'asym', 'dia', True))
     out.append((np.array([[0., 7., 0.], [0., 0., 3.], [2., 0., 0.]]), 'asym', 'lil', True))
+    reps = ctx.n(30, 600)
+    k = 0
+    for kind in KINDS:
+        for r in range(reps):
+            n = 2 + (k % 7)
+            k += 1
+            if r == 0:
+                n = 2
+            C = gen_matrix(ctx.rng, n, kind)
+            fmt = None if r % 3 == 0 else SPARSE_FORMATS[(k // 3) % 7]
+            out.append((C, kind, fmt, r % 2 == 0))
     return out
 
 
@@ -788,6 +798,10 @@ def run(ctx):
         if 'ok' in m_py:
             sweeps.append(m_py['n_iter'] + 1)
         check_matrix(ctx, C, kind, m_py, m_c, sparse_fmt=fmt, int_dtype=intd)
+        if sum(1 for v in ctx.violations if v.get('key') is None) >= 25:
+            # failing inputs are on record (the runner reports the smallest): no need to finish the sweep
+            ctx.note('stopped_early_after_cases', idx + 1)
+            break
     closed_pair_correspondence(ctx)
     if sweeps:
         ctx.note('model_sweeps', {'min': int(min(sweeps)), 'median': int(np.median(sweeps)),
